@@ -3,6 +3,7 @@ package main
 import (
 	"fmt"
 	"go/token"
+	"go/types"
 	"strings"
 
 	"golang.org/x/tools/go/ssa"
@@ -437,6 +438,75 @@ func runC10(r *Run) {
 		}
 		r.Floor("R11", "transaction handlers of wired precompiles", nH, 15)
 	}
+	r.Rule("R12", "OWN.committing-evm-calls: the token side of every pair is changed only by the conversions — a committing EVM call from Haqq code (CallEVM / CallEVMWithData with commit = true, or forwarding its own commit parameter) appears only in the tabled functions: convertCoinNativeCoin (mint), convertERC20NativeCoin (burnCoins), convertCoinNativeERC20 (transfer out of the escrow), convertERC20NativeToken (transfer into the escrow), PostTxProcessing (burn of tokens sent to the module), DeployERC20Contract, the bank wrapper's subUnlockedERC20Tokens (the holder's own transfer), and CallEVM forwarding to CallEVMWithData. A new site — a housekeeping burn of the module's balance, a mint on registration — moves tokens with no coin counterpart; for an ERC20-origin pair the module's balance IS the escrow")
+	{
+		allowed := map[string]string{
+			"(" + erc20K + ".Keeper).convertCoinNativeCoin":                 "mint for escrowed coins",
+			"(" + erc20K + ".Keeper).convertERC20NativeCoin":                "burn for released coins",
+			"(" + erc20K + ".Keeper).convertCoinNativeERC20":                "release from the escrow for burned coins",
+			"(" + erc20K + ".Keeper).convertERC20NativeToken":               "escrow for minted coins",
+			"(" + erc20K + ".Keeper).PostTxProcessing":                      "burn of tokens transferred to the module (coins are released)",
+			"(" + erc20K + ".Keeper).DeployERC20Contract":                   "contract creation for a coin-origin pair",
+			"(" + erc20K + ".Keeper).CallEVM":                               "forwards its commit parameter",
+			"(x/bank/keeper.msgServer).subUnlockedERC20Tokens":              "the sender's own token transfer (bank send wrapper)",
+			"(x/bank/keeper.msgServer).sendERC20Tokens":                     "the sender's own token transfer (bank send wrapper)",
+		}
+		nC := 0
+		for _, fn := range P.Funcs {
+			if isTestSupport(P, fn) || fn.Synthetic != "" || strings.Contains(fnPkgPath(fn), "/testutil") {
+				continue
+			}
+			owner := fnID(outermost(fn))
+			idx := 0
+			eachCall(fn, func(ci CallInfo) {
+				if ci.Name != "CallEVM" && ci.Name != "CallEVMWithData" {
+					return
+				}
+				// the commit flag is the bool argument
+				var commit ssa.Value
+				for _, a := range ci.Instr.Common().Args {
+					if b, ok := a.Type().Underlying().(*types.Basic); ok && b.Kind() == types.Bool {
+						commit = a
+					}
+				}
+				if commit == nil {
+					return
+				}
+				if c, ok := commit.(*ssa.Const); ok && !constBool(c) {
+					return // a read
+				}
+				nC++
+				idx++
+				why, ok := allowed[owner]
+				r.Check(ok, "R12", fmt.Sprintf("%s#committing-evm-call-%d", owner, idx), P.Pos(instrPos(ci.Instr)), "tabled: "+why,
+					"a committing EVM call from a function that is not one of the conversions: it changes token balances or supply of a pair's contract (a burn of the module's balance, a mint, a transfer out of the escrow) with no matching change on the coin side — for an ERC20-origin pair the module's token balance is the backing of the coin supply")
+			})
+		}
+		r.Floor("R12", "committing EVM calls in Haqq code", nC, 7)
+	}
+	r.Rule("R13", "OWN.amounts-are-values: an sdk.Int / sdk.Dec is handed around by value but shares its big.Int with every copy; BigIntMut() hands that shared number out for in-place arithmetic. No function of x/erc20, the bank wrapper, x/liquidvesting, x/ucdao or the precompiles calls it — an 'allocation-free' post-condition check (escrow before + amount, computed in place) silently changes the amount of the coins that are minted and sent a few lines later, and of the message itself")
+	{
+		nFn, bad := 0, 0
+		for _, fn := range P.Funcs {
+			pk := fnPkgPath(fn)
+			if isTestSupport(P, fn) || fn.Synthetic != "" || !(strings.Contains(pk, "/x/erc20") || strings.Contains(pk, "/x/bank") || strings.Contains(pk, "/x/liquidvesting") || strings.Contains(pk, "/x/ucdao") || strings.Contains(pk, "/precompiles/") || strings.Contains(pk, "/x/vesting") || strings.Contains(pk, "/x/coinomics")) {
+				continue
+			}
+			nFn++
+			idx := 0
+			eachCall(fn, func(ci CallInfo) {
+				if ci.Name == "BigIntMut" {
+					idx++
+					bad++
+					r.Bad("R13", fmt.Sprintf("%s#BigIntMut-%d", fnID(fn), idx), P.Pos(instrPos(ci.Instr)), "the function takes the shared, mutable big.Int out of an sdk.Int/Dec: arithmetic on it changes every copy of the amount — the coins minted or sent afterwards, the message's own amount field")
+				}
+			})
+		}
+		if bad == 0 {
+			r.OK("R13", "amount-handling packages#no-BigIntMut", "", fmt.Sprintf("%d functions, none takes the mutable number out of an amount", nFn))
+		}
+		r.Floor("R13", "functions of the amount-handling packages", nFn, 300)
+	}
 	r.Rule("R6", "PATH+FLOW.hook-guards: in PostTxProcessing the payout (MintCoins / CallEVM burn / SendCoinsFromModuleToAccount) is reachable only over the passing edges of: hook enabled (EnableErc20, EnableEVMHook), event name == Transfer, positive amount, registered pair found, recipient topic == ModuleAddress, pair.Enabled; the coin amount derives from the event data, the denom from the pair, the payee from topic 1, the burned contract is the log's address")
 	if fn, ok := P.FnOK("(" + erc20K + ".Keeper).PostTxProcessing"); ok {
 		isPayout := isCallMatching(func(ci CallInfo) bool {
@@ -815,4 +885,11 @@ func moduleAddrGlobal(P *Prog) ssa.Value {
 		}
 	}
 	return nil
+}
+
+func constBool(c *ssa.Const) bool {
+	if c == nil || c.Value == nil {
+		return false
+	}
+	return c.Value.String() == "true"
 }
